@@ -465,12 +465,9 @@ def load(val: _T) -> PythonValueT | _T:
     """
     if not inspection.istexttype(val.__class__):
         return val
-    # Decode first: `strload` is memoized and bytearray/writable memoryview aren't hashable.
-    # Copy: never hand the memoized container itself to a caller who may mutate it.
-    return copy.deepcopy(strload(decode(val)))  # type: ignore[arg-type]
+    return strload(val)  # type: ignore[arg-type]
 
 
-@compat.lru_cache(maxsize=100_000)
 def strload(val: str | bytes | bytearray | memoryview) -> PythonValueT:
     """Attempt to decode a string-like input into a Python value.
 
@@ -485,7 +482,7 @@ def strload(val: str | bytes | bytearray | memoryview) -> PythonValueT:
 
 
     Tip:
-        This function is memoized and only safe for text-type inputs.
+        The parse of a given text is memoized; every caller gets a copy of its own.
 
     See Also:
          - [`load`][typelib.serdes.load]
@@ -493,17 +490,32 @@ def strload(val: str | bytes | bytearray | memoryview) -> PythonValueT:
     Args:
         val: The string-like input to be decoded.
     """
+    # Decode first: the memo is keyed by the text (bytearray/writable memoryview aren't hashable).
+    text = decode(val)
+    # Running out of stack or memory says something about this call, not about the text:
+    #   it is never remembered.
+    try:
+        # Copy: never hand the memoized container itself to a caller who may mutate it.
+        return copy.deepcopy(_strload(text))
+    except (RecursionError, MemoryError):
+        pass
+    try:
+        # (Too deep to copy: parse afresh, nothing is shared.)
+        return _strload.__wrapped__(text)
+    except (RecursionError, MemoryError):
+        # (Long runs of operators in ordinary text exhaust the literal parser.)
+        return text
+
+
+@compat.lru_cache(maxsize=100_000)
+def _strload(val: str) -> PythonValueT:
     with contextlib.suppress(ValueError):
         return compat.json.loads(val)
 
-    decoded = decode(val)
-    # (Long runs of operators in ordinary text exhaust the literal parser.)
-    with contextlib.suppress(
-        ValueError, TypeError, SyntaxError, RecursionError, MemoryError
-    ):
-        return ast.literal_eval(decoded)
+    with contextlib.suppress(ValueError, TypeError, SyntaxError):
+        return ast.literal_eval(val)
 
-    return decoded
+    return val
 
 
 PythonPrimitiveT: t.TypeAlias = "bool | int | float | str | None"
